@@ -25,9 +25,15 @@ BLOCKS = {
     'deco-tree':       ("x = 0.5*x + G\nd1 = 2*x + G\nd2 = d1 - x\nd3 = d2*d1", {'x': {'x': 0.5}}, ['x'], ['G'], {}),
     'alias-chain':     ("x = 0.5*y + G\ny = z\nz = w\nw = 0.5*x + 1", {'x': {'w': 0.5}, 'w': {'x': 0.5}}, ['x', 'y', 'z', 'w'], ['G'], {}),
     'user-function':   ("x = 0.25*fn(x) + G\nd = fn(x)", {'x': {'x': 0.5}}, ['x'], ['G'], {'fn': lambda v: 2 * v + 1}),
+    'division-first':  ("x = 1/Y + 0*y\ny = 0.5*y + G", {'x': {}, 'y': {'y': 0.5}}, ['x', 'y'], ['G', 'Y'], {}),
+    'division-middle': ("a = 0.5*a + 1 + 0*x\nx = 2/Y + 0*y\ny = 0.25*y + G + 0*a", {'a': {}, 'x': {}, 'y': {}}, ['a', 'x', 'y'], ['G', 'Y'], {}),
     'three-coupled':   ("x = 0.5*y + G\ny = 0.25*x + 0.3*z + 1\nz = 0.2*x - 0.4*y + G",
                         {'x': {'y': 0.5}, 'y': {'x': 0.25, 'z': 0.3}, 'z': {'x': 0.2, 'y': -0.4}}, ['x', 'y', 'z'], ['G'], {}),
 }
+
+
+# exogenous inputs used as divisors: a period in which one is zero cannot be solved (the equation cannot hold)
+DIVISORS = {'division-first': ['Y'], 'division-middle': ['Y']}
 
 
 def norm_inf(A):
@@ -121,6 +127,9 @@ def real_case(case):
                 props.append(env[v] == L(ts[src.strip()][k - 1]))
             for nme in exo:
                 props.append(env[nme] == syms['%s@%d' % (nme, k)])
+        for dn in DIVISORS.get(name, []):
+            for k in range(1, maxtime + 1):
+                props.append(syms['%s@%d' % (dn, k)] != 0)        # reported as solved => every divisor was non-zero
         r, m = D.holds(z3.And(props))
         if r == 'sat' and out['viol'] is None:
             out['viol'] = {'why': 'an equation of the submitted block does not hold at the reported values',
@@ -151,7 +160,7 @@ def real_cases(tier):
                     combos = [(1e-2, 2), (1e-2, 12), (1e-6, 4)]
                 elif n == 2:
                     combos = [(1e-2, 2), (1e-2, 3)]
-                elif n <= 4 and name != 'three-coupled':
+                elif n <= 4 and name not in ('three-coupled',):
                     combos = [(1e-2, 2)] if not reduce else [(1e-2, 3)]
                 else:
                     combos = []
@@ -212,7 +221,10 @@ for k in range(1, maxtime + 1):
     scale = max([1.0] + [abs(env[v]) for v in sim])
     for v, eqn in orig.Endogenous:
         if v == 't': continue
-        r = abs(env[v] - eval(eqn, {}, env))
+        try:
+            r = abs(env[v] - eval(eqn, {}, env))
+        except ZeroDivisionError:
+            print('period', k, v, '=', env[v], 'reported although', eqn, 'cannot be evaluated (division by zero)'); bad = True; continue
         lim = bound * scale * (1 + 1e-9) + 1e-12 if v in sim else 1e-9 * (1 + abs(env[v]))
         if r > lim: print('period', k, v, 'residual', r, 'limit', lim); bad = True
     for v, src in orig.Lagged:
